@@ -2,6 +2,7 @@
 
 from __future__ import annotations
 
+import itertools
 import os
 import random
 import shutil
@@ -275,6 +276,17 @@ def run_old(case, env, res, tmpdir, state):
     sys.stdout = tap
     exc = None
     tell0 = image.tell()
+    if animation and case.get("ki_render"):
+        # Ctrl-C while the k-th frame is being rendered (nothing of it written yet)
+        real_render, n_render = image._render_image, [0]
+
+        def interrupted_render(*a, **k):
+            n_render[0] += 1
+            if n_render[0] == case["ki_render"]:
+                raise KeyboardInterrupt
+            return real_render(*a, **k)
+
+        image._render_image = interrupted_render
     try:
         with dl.patched_time(interruptible_time(case)):
             image.draw(h, pw, v, ph, alpha, animate=case["animate"], repeat=case["repeat"], cached=case["cached"], scroll=case["scroll"], check_size=case["check_size"], **style)
@@ -282,6 +294,7 @@ def run_old(case, env, res, tmpdir, state):
         exc = e
     finally:
         sys.stdout = saved
+        image.__dict__.pop("_render_image", None)
     data = env.take()
     res.count("draw calls executed")
     res.count("validation: " + ("rejected" if expect else "accepted"))
@@ -319,6 +332,27 @@ def run_old(case, env, res, tmpdir, state):
         if animation and case.get("ki_sleep") and case["ki_sleep"] <= len(order) - 1:
             order = order[: case["ki_sleep"]]
             res.count("animations ended by Ctrl-C between two frames")
+        if animation and case.get("ki_render") and case["ki_render"] <= frames_n:
+            order = order[: case["ki_render"] - 1]
+            res.count("animations ended by Ctrl-C while a frame was being rendered")
+            if not order:
+                # no frame was completed: where the cursor would belong is not defined by
+                # a frame; but if the style has already drawn on the region (WezTerm's
+                # pre-erase), the call must not return with the cursor inside it
+                T = dl.new_screen(rows, cols, personality, r0)
+                init = dl.screen_view(dl.new_screen(rows, cols, personality, r0))[0]
+                T.feed(data.replace(dl.MARK, b"").decode("utf-8", "replace"))
+                grid = dl.screen_view(T)[0]
+                top, bottom = r0 - T.scrolls, r0 + PH - 1 - T.scrolls
+                touched = any(grid[r] != init[r + T.scrolls] for r in range(max(top, 0), min(bottom, rows - 1) + 1) if 0 <= r + T.scrolls < rows)
+                errs = []
+                if touched and T.r <= bottom:
+                    errs.append(("cursor-inside-region", "the region (rows %d..%d) was drawn on before the first frame, the call returned with the cursor on row %d" % (top, bottom, T.r)))
+                if not T.visible:
+                    errs.append(("cursor-hidden",))
+                if not T.sgr_default():
+                    errs.append(("sgr-not-reset", T.fg, T.bg))
+                return errs
         if not case["tty"]:
             pass
         if os.environ.get("VERIF_DEBUG_C06"):
@@ -365,6 +399,8 @@ def gen_old(rnd, persona):
         r0f=rnd.choice([0, 1000, 1000, rnd.randint(0, 1000)]),
         ki_sleep=rnd.choice([None, None, None, 1, 2, 3, 5]),
     )
+    if case["ki_sleep"] is None and rnd.random() < 0.25:
+        case["ki_render"] = rnd.choice([1, rnd.randint(1, frames)])
     if style == "kitty":
         kw = {}
         if rnd.random() < 0.3:
@@ -386,6 +422,22 @@ def gen_old(rnd, persona):
     return case
 
 
+def corner_cases(persona, index):
+    """A few fixed cases, in every run: interruptions of old-API animations at the very first
+    frame, where styles that prepare the region beforehand differ from the others."""
+    if index >= len(PERSONAS):  # once per identity
+        return
+    pers = vt_personality(persona)
+    styles = ["block"] + (["iterm2"] if pers in ("wezterm", "iterm2", "konsole", "other") else []) + (["kitty"] if pers in ("kitty", "konsole") else [])
+    for style in styles:
+        for r0f in (0, 200, 1000):
+            for ph in (-2, 8, 1):
+                base = dict(api="old", style=style, term=[30, 14], frames=3, fmt="GIF", src=[8, 8], size_kw=dict(width=6, height=4), size_enum=None, seed=4242, h=None, v=None, pw=0, ph=ph, alpha=40 / 255, animate=True, repeat=2, cached=False, scroll=False, check_size=True, tty=True, r0f=r0f, style_kw={})
+                yield dict(base, ki_sleep=None, ki_render=1)
+                yield dict(base, ki_sleep=1)
+                yield dict(base, ki_sleep=None, ki_render=2)
+
+
 def run_shard(shard, env):
     from ..lib import setup_styles
 
@@ -398,7 +450,8 @@ def run_shard(shard, env):
             cases = [shard["replay"]]
         else:
             rnd = random.Random("%s/c06/%s" % (shard["seed"], shard["index"]))
-            cases = (gen_new(rnd) if rnd.random() < 0.45 else gen_old(rnd, shard["persona"]) for _ in range(shard["count"]))
+            random_cases = (gen_new(rnd) if rnd.random() < 0.45 else gen_old(rnd, shard["persona"]) for _ in range(shard["count"]))
+            cases = itertools.chain(corner_cases(shard["persona"], shard["index"]), random_cases)
         for case in cases:
             try:
                 errs = run_new(case, env, res) if case["api"] == "new" else run_old(case, env, res, tmpdir, state)
